@@ -66,7 +66,36 @@ T = {
     "fastq": ("FastQBuffer", "SequenceEntryWithQuality", ".fq", [("name", "id"), ("sequence", "seq"), ("quality", "qual")]),
 }
 HAS_HEADER = {"vcf", "vcfs"}
-MODES = ["plain", "gzip", "append", "append_gzip", "stream"]
+MODES = ["plain", "gzip", "stream", "stream_gzip", "append", "append_gzip", "append_stream", "append_stream_gzip",
+         "append0", "append0_gzip", "append0_empty"]
+FIRST_MODES = ("append", "append_gzip", "append_stream", "append_stream_gzip")   # modes that use case["first"]
+
+
+def sessions(c):
+    """the writers of a case: (open mode, fed by one stream?, number of pieces it gets), in order"""
+    n = len(_pieces(c))
+    m = c["mode"]
+    if m in ("plain", "gzip"):
+        return [("w", False, n)]
+    if m in ("stream", "stream_gzip"):
+        return [("w", True, n)]
+    if m in ("append0", "append0_gzip", "append0_empty"):
+        return [("a", False, 1)] * n
+    a = max(1, min(c.get("first", 1), n))
+    if m in ("append", "append_gzip"):
+        return [("w", False, a)] + [("a", False, 1)] * (n - a)
+    return [("w", False, a)] + ([("a", True, n - a)] if n > a else [])
+
+
+def n_calls(c):
+    ps = _pieces(c)
+    k = i = 0
+    for _, stream, cnt in sessions(c):
+        part = ps[i:i + cnt]
+        i += cnt
+        k += sum(1 for p in part if p) if stream else len(part)
+    return k
+
 
 _TMP = None
 _TMP_OWNER = None
@@ -190,21 +219,24 @@ def cases(tier, rng):
     big = tier in ("thorough", "widen")
     nmax = 6 if tier == "thorough" else 4
     fmts = list(T)
-    # 1. every composition x every mode, formats rotating
+    # 1. every composition x every mode x every position of the first append, formats rotating
     k = 0
+    reps = 3 if big else 1
     for n in range(0, nmax + 1):
         for cuts in compositions(n):
-            for mode in MODES:
-                reps = 3 if big else 1
-                for _ in range(reps):
-                    fmt = fmts[k % len(fmts)]
-                    k += 1
-                    rows = [g_row(rng, fmt) for _ in range(n)]
-                    c = list(cuts)
-                    if rng.random() < 0.25:          # empty pieces
-                        c = sorted(c + [rng.randrange(0, n + 1)])
-                    yield {"op": "write", "fmt": fmt, "rows": rows, "cuts": c, "mode": mode,
-                           "first": rng.randrange(1, len(c) + 2)}
+            variants = [list(cuts)]
+            if n:                                   # a first write that is empty / an empty piece somewhere
+                variants.append([0] + list(cuts))
+                variants.append(sorted(list(cuts) + [rng.randrange(0, n + 1)]))
+            for c in variants:
+                for mode in MODES:
+                    firsts = range(1, len(c) + 2) if mode in FIRST_MODES else [1]
+                    for first in firsts:
+                        for _ in range(reps):
+                            fmt = fmts[k % len(fmts)]
+                            k += 1
+                            rows = [g_row(rng, fmt) for _ in range(n)]
+                            yield {"op": "write", "fmt": fmt, "rows": rows, "cuts": c, "mode": mode, "first": first}
     # 2. random tables per format, random cuts
     per = {"quick": 150, "thorough": 2500, "widen": 400}[tier]
     for fmt in fmts:
@@ -256,28 +288,25 @@ def impl(c):
     logging.disable(logging.CRITICAL)
     fmt, mode = c["fmt"], c["mode"]
     BT = c02._buffer_type(T[fmt][0])
-    gz = mode in ("gzip", "append_gzip")
+    gz = mode.endswith("gzip")
     p = os.path.join(_tmpdir(), "w" + T[fmt][2] + (".gz" if gz else ""))
     if os.path.exists(p):
         os.remove(p)
     try:
         tables = [_table(fmt, rows) for rows in _pieces(c)]
-        if mode in ("plain", "gzip"):
-            with bnp.open(p, "w", buffer_type=BT) as f:
-                for t in tables:
-                    f.write(t)
-        elif mode == "stream":
-            import bionumpy.datatypes as dt
-            with bnp.open(p, "w", buffer_type=BT) as f:
-                f.write(NpDataclassStream(iter(tables), dataclass=getattr(dt, T[fmt][1])))
-        else:
-            a = min(c.get("first", 1), len(tables))
-            with bnp.open(p, "w", buffer_type=BT) as f:
-                for t in tables[:a]:
-                    f.write(t)
-            for t in tables[a:]:
-                with bnp.open(p, "a", buffer_type=BT) as f:
-                    f.write(t)
+        import bionumpy.datatypes as dt
+        if mode == "append0_empty":
+            open(p, "wb").close()                  # an existing, empty target
+        i = 0
+        for om, stream, cnt in sessions(c):
+            part = tables[i:i + cnt]
+            i += cnt
+            with bnp.open(p, om, buffer_type=BT) as f:
+                if stream:
+                    f.write(NpDataclassStream(iter(part), dataclass=getattr(dt, T[fmt][1])))
+                else:
+                    for t in part:
+                        f.write(t)
         raw = open(p, "rb").read()
         data = gzip.decompress(raw) if gz and raw else raw
         out = {"bytes": data.decode("latin1")}
@@ -323,7 +352,7 @@ def _representable(fmt, rows):
                     return False
                 if kind == "id" and (v == "" or v != v.strip()):
                     return False
-            if kind in ("int", "sint", "oint") and not (-2 ** 63 < v < 2 ** 63 - 1):
+            if kind in ("int", "sint", "oint") and not (-2 ** 63 < v <= 2 ** 63 - 1 - (1 if (fmt in HAS_HEADER and name == "position") else 0)):
                 return False
             if kind == "float":
                 x = float.fromhex(v[2:])
@@ -353,9 +382,8 @@ def oracle(c):
     fmt = c["fmt"]
     if not _representable(fmt, c["rows"]):
         return SKIP
-    n_writes = len(_pieces(c))
-    # a header (if the format has one) is written by the first write call of a 'w' writer, never by an 'a' writer
-    return {"body": ref_body(fmt, c["rows"]), "headers": 1 if (fmt in HAS_HEADER and (c["mode"] != "stream" or any(_pieces(c)))) else 0}
+    # a header (if the format has one) stands exactly once in front as soon as one write call was made
+    return {"body": ref_body(fmt, c["rows"]), "headers": 1 if (fmt in HAS_HEADER and n_calls(c) > 0) else 0}
 
 
 def _expected_read(c):
@@ -426,7 +454,8 @@ def model_request(c):
             else:
                 row.append({"t": v})
         rows.append(row)
-    return {"op": "write", "fmt": fmt, "rows": rows, "cuts": c["cuts"], "mode": c["mode"], "first": c.get("first", 1)}
+    return {"op": "write", "fmt": fmt, "rows": rows, "cuts": c["cuts"],
+            "sessions": [{"m": m, "s": st, "k": k} for m, st, k in sessions(c)]}
 
 
 def nontrivial(c):
